@@ -702,7 +702,11 @@ class RowWiseModifiedBisectionSearch:
                 nbh_start = nbh_max
                 # continueLoop = True
                 # highT_e = T_lower
+                # the complete field is known to work; it is the answer unless a smaller one is found below
+                selected_coordinates = starting_field
                 selected_specifier = lower_field_specifier
+                selected_temp_excess = t_lower
+                selected_spacing = spacing_stop
                 i = 0
                 while i < self.max_iter:
                     nbh = (nbh_max + nbh_min) // 2
